@@ -31,6 +31,7 @@ type Bias struct {
 	MaxMsgs    int
 	MaxCalls   int
 	Intercept  bool
+	LateRecv   bool // callers that start receiving only after the handler's burst (fault-free worlds only: the wait is on the handler)
 	EarlyRet   bool // handler may return before consuming everything (bounded, see genStream)
 	AllTopos   bool
 }
@@ -159,7 +160,7 @@ func genStream(g *rand.Rand, c *CallSpec, b Bias, classU bool) {
 	// a caller that is slow to start receiving: the handler's burst piles up
 	// first (only where nothing is flow-controlled)
 	lateRecv := func(n int) []Op {
-		if classU && n > 0 && g.IntN(4) == 0 {
+		if b.LateRecv && classU && n > 0 && g.IntN(4) == 0 {
 			return []Op{{K: 'b'}}
 		}
 		return nil
@@ -479,12 +480,12 @@ func init() {
 	reg := func(name string, props []string, b Bias) {
 		Register(&Family{Name: name, Props: props, New: func() any { return &MixParams{} }, Gen: genMix(b), Exec: execMix, ShrinkKeys: []string{"callers"}})
 	}
-	reg("mix.streams", []string{"C02", "C05", "C06"}, Bias{Streams: 90, Errors: 10, Metadata: 10, MaxMsgs: 200, MaxCalls: 32, AllTopos: true})
+	reg("mix.streams", []string{"C02", "C05", "C06"}, Bias{Streams: 90, Errors: 10, Metadata: 10, MaxMsgs: 200, MaxCalls: 32, AllTopos: true, LateRecv: true})
 	reg("mix.status", []string{"C03"}, Bias{Streams: 60, Errors: 75, Metadata: 5, MaxMsgs: 4, MaxCalls: 6})
 	reg("mix.metadata", []string{"C04"}, Bias{Streams: 60, Errors: 25, Metadata: 100, MaxMsgs: 4, MaxCalls: 5})
 	reg("mix.early", []string{"C02", "C03", "C06", "C11"}, Bias{Streams: 90, Errors: 30, Metadata: 10, MaxMsgs: 6, MaxCalls: 6, EarlyRet: true})
 	reg("mix.side", []string{"C20"}, Bias{Streams: 55, Errors: 30, Metadata: 10, MaxMsgs: 4, MaxCalls: 6, Intercept: true})
-	reg("mix.all", []string{"C01", "C02", "C03", "C04", "C05", "C06", "C20"}, Bias{Streams: 60, Errors: 25, Metadata: 30, MaxMsgs: 8, MaxCalls: 12, Intercept: true, AllTopos: true})
+	reg("mix.all", []string{"C01", "C02", "C03", "C04", "C05", "C06", "C20"}, Bias{Streams: 60, Errors: 25, Metadata: 30, MaxMsgs: 8, MaxCalls: 12, Intercept: true, AllTopos: true, LateRecv: true})
 }
 
 // ---------------------------------------------------------------------------
